@@ -195,6 +195,25 @@ func c11AllRules(c *Ctx, r *R) {
 				}
 			}
 		}
+		// and nothing else: every value the compared count can take is that Len() or the constant 0
+		for _, e := range fail {
+			iff := e.From.Instrs[len(e.From.Instrs)-1].(*ssa.If)
+			if bo, ok := iff.Cond.(*ssa.BinOp); ok {
+				side := bo.X
+				if reqPat(bo.X) {
+					side = bo.Y
+				}
+				for _, root := range eng.Roots(side) {
+					if n, isC := eng.ConstInt(root); isC && n == 0 {
+						continue
+					}
+					if k, _, ok := eng.RootCall(root); ok && k.Method() == "Len" && k.Recv() != nil && sameObj(uvk.Result(1))(k.Recv()) {
+						continue
+					}
+					cntOK = false
+				}
+			}
+		}
 		r.Check(cntOK, "threshold-counts-accepted", uvk.Pos(), "the count compared is acceptedPrincipalIDs.Len() from the delegation verification", "the global threshold is not compared with the accepted principals of the delegation verification")
 	}
 	// reduction: every SUB on GetThreshold is by const 1 and guarded by both flags
@@ -244,6 +263,56 @@ func c11AllRules(c *Ctx, r *R) {
 		}
 		r.Check(okk, "force-push-enforced", kk.Pos(), "!KnowsCommit(current, previous) → ErrVerifierConditionsUnmet", "a push that does not descend from the previous state does not always return ErrVerifierConditionsUnmet")
 		// skipped only under verifyMergeable: the block-force-push case reaches KnowsCommit unless verifyMergeable / first entry
+	}
+	// a rule that matches the namespace cannot be skipped: from the true edge of rule.Matches(target)
+	// the next rule / a success return is reached only through the rule's own pass condition
+	heads := loopHeads(fn)
+	nextOrSuccess := func(in ssa.Instruction) bool { return heads[in] || isSuccessReturn(in) }
+	for _, k := range eng.Calls(fn, false) {
+		if k.Method() != "Matches" {
+			continue
+		}
+		kind := k.RecvTypeName()
+		if kind != "GlobalRuleThreshold" && kind != "GlobalRuleBlockForcePushes" {
+			continue
+		}
+		v := k.Value()
+		if v == nil {
+			continue
+		}
+		pass := eng.NewCut()
+		if kind == "GlobalRuleThreshold" {
+			for _, e := range fail {
+				pass.AddEdges(eng.Edge{From: e.From, Idx: 1 - e.Idx})
+			}
+		} else {
+			for _, kk := range knows {
+				pass.AddEdges(eng.BoolEdges(fn, eng.PSame(kk.Result(0)), true)...)
+			}
+			// documented skips: mergeability prediction, first entry for the reference
+			pass.AddEdges(eng.BoolEdges(fn, func(v ssa.Value) bool { n, _, isF := eng.FieldLoad(v); return isF && n == "verifyMergeable" }, true)...)
+			pass.AddEdges(eng.BoolEdges(fn, func(v ssa.Value) bool {
+				ik, _, ok := eng.RootCall(v)
+				if !ok || ik.Name() != "errors.Is" {
+					return false
+				}
+				g := eng.GlobalLoad(ik.Arg(1))
+				return g != nil && g.Name() == "ErrRSLEntryNotFound"
+			}, true)...)
+		}
+		okM := true
+		var wit *eng.Path
+		for _, e := range eng.BoolEdges(fn, eng.PSame(v), true) {
+			if p := eng.FindPath(e.To(), 0, nextOrSuccess, pass); p != nil {
+				okM = false
+				wit = p
+			}
+		}
+		if okM {
+			r.Ok("matching-rule-enforced:"+kind, k.Pos(), "a matching %s is always evaluated", kind)
+		} else {
+			r.Bad("matching-rule-enforced:"+kind, k.Pos(), "a %s that matches the namespace can be passed over without its condition having held (Matches test inverted or check skipped); witness %s", kind, c.DescribePath(wit))
+		}
 	}
 	// unknown rule type → error: a return with sentinel ErrUnknownGlobalRuleType exists
 	unk := false
